@@ -39,7 +39,12 @@ def run_cases(P, pid, cases, tag, release=False, model_ok=True):
     rc_m = 0
     raw_m = ""
     if model_ok:
-        rc_m, model, raw_m = C.run_driver(pid, path)
+        mpath = path
+        if hasattr(P, "model_case"):
+            # inputs the model needs from the implementation's own output (random branches, tags, cnonces ...)
+            mpath = os.path.join(C.BUILD, pid, "cases_%s_model.tsv" % tag)
+            C.write_cases(mpath, [P.model_case(c, impl.get(c[0], "")) for c in cases])
+        rc_m, model, raw_m = C.run_driver(pid, mpath)
     return impl, model, (rc_i, rc_m, raw_i[-2000:], raw_m[-2000:])
 
 
@@ -143,7 +148,7 @@ def main():
             coqchk = None
         # 3. driver + harness
         if model_ok:
-            model_ok, dlog = C.build_driver(pid)
+            model_ok, dlog = C.build_driver(pid, getattr(P, 'GEN', None))
             if not model_ok:
                 notes.append("driver build failed: " + dlog[-800:])
         harness_ok, hlog = C.build_harness(release=False)
